@@ -404,4 +404,50 @@ theorem out_master (vd : Nat → V → Bool) (st : OutSt) (hwf : wfPorts st.port
         | ok o =>
           exact ⟨hw1, rfl, a, sub, hq, hlast, hdyn, rfl, rfl⟩
 
+/-! ### whole runs -/
+
+theorem dropLast_append_getLastD : ∀ (l : List String), l ≠ [] → l.dropLast ++ [l.getLastD ""] = l
+  | [], h => absurd rfl h
+  | [a], _ => rfl
+  | a :: b :: t, _ => by
+      have := dropLast_append_getLastD (b :: t) (by simp)
+      simp only [List.dropLast_cons_cons, List.cons_append, List.getLastD_cons] at this ⊢
+      rw [this]
+
+theorem replay_append (o : Items) : ∀ (l l' : List (List String × V × Bool)), replay o (l ++ l') = replay (replay o l) l'
+  | [], l' => rfl
+  | (path, v, d) :: l, l' => by
+      simp only [List.cons_append, replay]
+      cases store o path.dropLast (path.getLastD "") v <;> exact replay_append _ l l'
+
+theorem outs_master (vd : Nat → V → Bool) : ∀ (ems : List (List String × V)) (st : OutSt), wfPorts st.ports = true →
+    wfPorts (outs vd st ems).1.ports = true ∧ (outs vd st ems).1.top = st.top ∧
+    (outs vd st ems).1.emitted.reverse = st.emitted.reverse ++ accepted ems (outs vd st ems).2 ∧
+    (st.outputs = replay [] st.emitted.reverse →
+      (outs vd st ems).1.outputs = replay [] (outs vd st ems).1.emitted.reverse)
+  | [], st, hwf => by simp [outs, accepted, hwf]
+  | (path, v) :: rest, st, hwf => by
+      obtain ⟨hw1, ht1, hm⟩ := out_master vd st hwf path v
+      obtain ⟨ihw, iht, ihe, iho⟩ := outs_master vd rest (out vd st path v).1 hw1
+      simp only [outs]
+      refine ⟨ihw, iht.trans ht1, ?_, ?_⟩
+      · rw [ihe]
+        cases hr : (out vd st path v).2 with
+        | ok d =>
+          rw [hr] at hm; obtain ⟨_, _, _, _, _, _, h5⟩ := hm
+          simp [accepted, h5]
+        | error e =>
+          rw [hr] at hm
+          simp [accepted, hm.2.1]
+      · intro hinv
+        apply iho
+        cases hr : (out vd st path v).2 with
+        | ok d =>
+          rw [hr] at hm; obtain ⟨_, _, _, _, _, h4, h5⟩ := hm
+          rw [h5, List.reverse_cons, replay_append, ← hinv]
+          simp only [replay, h4]
+        | error e =>
+          rw [hr] at hm
+          rw [hm.1, hm.2.1]; exact hinv
+
 end Ports
